@@ -52,6 +52,10 @@ pub struct Scheduler {
 }
 
 fn point_cb(name: &str) {
+    // the crash points of the append path (C05) are not yield points of the schedules
+    if name.starts_with("log.") || name.starts_with("cache.") || name.starts_with("index.") || name.starts_with("artifact.") {
+        return;
+    }
     let Some(id) = WORKER.with(|w| w.get()) else { return };
     let shared = SHARED.lock().unwrap().clone();
     let Some(shared) = shared else { return };
@@ -237,6 +241,9 @@ impl Scheduler {
             } else {
                 idle += 1;
                 if idle > 100 {
+                    if std::env::var("RVH_SCHED_DEBUG").is_ok() {
+                        eprintln!("sched: giving up; workers: {:?}", (0..self.finished.len()).map(|i| self.where_is(i)).collect::<Vec<_>>());
+                    }
                     break; // ~8 s without any progress: give up (the join below would hang)
                 }
             }
